@@ -347,6 +347,11 @@ class GriffeLoader:
                     )
                     continue
 
+                # A module importing everything from itself changes nothing.
+                if target is obj:
+                    to_remove.append(member.name)
+                    continue
+
                 # Recurse into this module, expanding wildcards there before collecting everything.
                 if target.path not in seen:
                     try:
@@ -390,9 +395,17 @@ class GriffeLoader:
             # 2. If the expanded member was already present and we decided not to overwrite it, we stop.
             # 3. Otherwise we proceed further.
             if not self_alias and (not already_present or overwrite):
+                target: Object | Alias | str = new_member
+                if new_member.is_alias:
+                    # If the chain of the imported alias cannot be followed, create the new alias
+                    # unresolved too (by path): a chain is never left partially resolved.
+                    try:
+                        new_member.final_target  # noqa: B018
+                    except (AliasResolutionError, CyclicAliasError):
+                        target = new_member.path
                 alias = Alias(
                     new_member.name,
-                    new_member,
+                    target,
                     lineno=alias_lineno,
                     endlineno=alias_endlineno,
                     parent=obj,  # type: ignore[arg-type]
@@ -706,7 +719,8 @@ class GriffeLoader:
         return [
             (imported_member, wildcard_obj.alias_lineno, wildcard_obj.alias_endlineno)
             for imported_member in module.members.values()
-            if imported_member.is_wildcard_exposed
+            # Members representing wildcard imports that could not be expanded are not real names.
+            if imported_member.is_wildcard_exposed and not (imported_member.is_alias and imported_member.wildcard)
         ]
 
 
